@@ -439,8 +439,10 @@ key has no `=` is read back — by the library whenever no **earlier** entry's i
 of `key[=value]` before the first `=`; for a well-formed entry its key), by the RFC reader whenever its key is non-empty and
 no earlier item yields a key equal to it up to ASCII case — whatever else the dictionary contains (keys with `=`, empty
 keys, colliding keys elsewhere); the decoded keys are distinct and each is the `effKey` of some entry, so nothing else
-appears.  This is the statement behind the harness's per-entry oracle (`entry_classes` in `harness/c19.py`): the four
-known-finding classes cover exactly the entries excluded here, not the dictionaries that contain one. -/
+appears.  This is the statement behind the harness's per-entry oracle (`must_entries` in `harness/c19.py`): the entries
+excluded here are exactly the ones the harness does not demand (`must_entries`): an entry with `=` in its key, and an entry
+whose key an *earlier* item yields (the second of two colliding keys; a key shadowed by an earlier key with `=`) — never the
+first of two colliding keys, never a key that only a *later* entry collides with, never the rest of the dictionary. -/
 theorem C19_txt_entry_roundtrip (ps pre post : Txt.Props) (k : Bytes) (v : Option Bytes)
     (hfit : ∀ e ∈ ps, (Txt.itemOf e).length ≤ 255) (hps : ps = pre ++ (k, v) :: post) (hk : Txt.eqByte ∉ k) :
     ∃ text, Txt.encode ps = .ok text
@@ -498,8 +500,10 @@ theorem C19_txt_lone_surrogate_refuted : ¬ C19_txt_every_dict_accepted := by
   obtain ⟨r, hr⟩ := h [(.surrogateStr, none)] (by decide)
   simp [Txt.setPropertiesRaw, Txt.Encodable, Txt.entryEncodable, Txt.PyObj.encodable] at hr
 
-/-- `UnicodeEncodeError` is raised exactly for the dictionaries with such a `str` — before anything else, in particular
-before the `ValueError` of an oversize item -/
+/-- A restatement of the model's **definition** (`setPropertiesRaw := if Encodable d then … else .error .unicodeEncodeError`),
+not a result about the code: `UnicodeEncodeError` exactly for the dictionaries with such a `str`, before anything else (in
+particular before the `ValueError` of an oversize item).  That the code behaves like this definition is a *reading* of
+info.py:372-387 (first loop encodes, second loop frames), tied only by the correspondence run (`c19t` lines with type tag 2). -/
 theorem C19_txt_unicode_error_iff (d : Txt.PyDictRaw) :
     Txt.setPropertiesRaw d = .error .unicodeEncodeError ↔ Txt.Encodable d = false := by
   unfold Txt.setPropertiesRaw
@@ -523,7 +527,9 @@ example : Txt.Encodable [(.val (.str [107]), some (.val (.bytes [118])))] = true
 `setProperties` returns the dictionary itself when no `str` is involved (`returnsCallersDict`); the real object is an
 *alias* of the caller's dictionary (the harness compares `info.properties is <given>` with this bit), so a caller who
 mutates the dictionary afterwards sees `.properties` change while `.text` does not.  The property speaks of the dictionary
-*given* to the service description; what later mutation does is outside it and outside the model (value semantics). -/
+*given* to the service description; what later mutation does is outside it and outside the model (value semantics).
+`C19_txt_alias` unfolds the definition `returnsCallersDict := !containsStr`; it records the reading, it proves nothing about the
+code — the tie is the `A` bit of the `c19t` line. -/
 theorem C19_txt_alias (d : Txt.PyDict) (text : Bytes) (obs : Txt.PyDict) (h : Txt.setProperties d = .ok (text, obs)) :
     (Txt.returnsCallersDict d = true → obs = d)
     ∧ (Txt.returnsCallersDict d = false → obs = Txt.asBytesDict (Txt.decodeLib text)) := by
